@@ -167,6 +167,9 @@ pub struct Cx {
     pub case_viols: u32,
     pub harness_errors: Vec<String>,
     pub small: bool, // reduced sizes (Miri / valgrind legs)
+    /// operations a leg asks the drivers to leave out (`--skip-op NAME`)
+    pub skip_ops: Vec<String>,
+    pub tick: u64,
 }
 
 impl Cx {
@@ -193,10 +196,15 @@ impl Cx {
             case_viols: 0,
             harness_errors: vec![],
             small: false,
+            skip_ops: vec![],
+            tick: 0,
         }
     }
 
     #[inline]
+    pub fn skips(&self, op: &str) -> bool {
+        self.skip_ops.iter().any(|s| s == op)
+    }
     pub fn log(&mut self, f: impl FnOnce() -> String) {
         if self.verbose {
             let s = f();
